@@ -56,12 +56,13 @@ def behaviour_of(segment):
         if e == "Setup":
             top = ev.get("abs", {}).get("rcv", {}).get("A", {}).get("cur")
             continue
-        if e in ("Settled", "NotSettled", "abort"):
+        if e in ("Settled", "NotSettled", "abort", "DueTouch"):
             continue
         if e == "reset":
             continue
         a = {"a": e}
-        for k in ("c", "p", "r", "res"):
+        for k in ("c", "p", "r", "res", "add", "del", "cust", "prov",
+                  "margin", "timing"):
             if k in ev:
                 a[k] = ev[k]
         if e == "Step":
@@ -69,6 +70,8 @@ def behaviour_of(segment):
         acts.append(a)
     beh = {"top": top or ["p1", "p2", "a1"], "actions": acts,
            "id": segment[0].get("behaviour", 0),
+           "agg": segment[0].get("agg", 100),
+           "deagg": segment[0].get("deagg", 90),
            "mftdue": segment[0].get("mftdue", False),
            "objdue": segment[0].get("objdue", False)}
     add_timing(beh)
